@@ -20,6 +20,9 @@ ClassesCleanup == <<"write", "write", "write", "store", "read", "read", "delete"
 ClassesEvict   == <<"write", "write", "write", "write", "write", "store", "read", "read", "read", "read",
                     "load", "delete", "tick", "tick", "cleanup", "cleanup", "cleanup", "expireall">>
 
+ClassesRelay   == <<"write", "write", "write", "write", "store", "read", "read", "delete", "expireall",
+                    "tick", "tick", "relay", "relay", "relay", "cleanup", "len">>
+
 Classes == <<"write", "write", "write", "write", "store",
              "read", "read", "read", "read", "load",
              "delete", "delete", "expireall", "deleteall",
@@ -38,6 +41,7 @@ Step(cls) ==
     [] cls = "len"       -> LenOp
     [] cls = "walk"      -> Walk
     [] cls = "tick"      -> Tick
+    [] cls = "relay"     -> Relay
     [] cls = "cleanup"   -> \E b \in BOOLEAN : Cleanup(b)
 
 GenInit == Init /\ hist = <<>> /\ done = FALSE
